@@ -68,6 +68,21 @@ where
 
         let from = stored_len * Self::SIZE_OF_T + HEADER_OFFSET;
 
+        if unlikely(expanded) {
+            // After rollback of a truncating write the region is shorter than
+            // stored_len: re-materialise the missing tail from the overlay before
+            // anything is written past it (deleted slots get filler bytes).
+            let mut bytes = Vec::with_capacity((stored_len - real_stored_len) * Self::SIZE_OF_T);
+            for index in real_stored_len..stored_len {
+                match self.updated().get(&index) {
+                    Some(value) => S::write_to_vec(value, &mut bytes),
+                    None => bytes.resize(bytes.len() + Self::SIZE_OF_T, 0),
+                }
+            }
+            self.region()
+                .truncate_write(real_stored_len * Self::SIZE_OF_T + HEADER_OFFSET, &bytes)?;
+        }
+
         if has_new_data {
             // Take the pushed buffer to free its heap allocation after writing.
             let taken = mem::take(self.base.mut_pushed());
